@@ -140,6 +140,10 @@ Renderable(G, v) ==
   CASE v.k \in {"int", "bin", "ref"} -> TRUE
     [] v.k = "tup" -> \A i \in DOMAIN v.fs : Renderable(G, v.fs[i])
     [] v.k = "fn"  -> v.ctx = <<>> /\ Closed(G, v.n) /\ LitT(G, G.types[v.n].r)
+    \* a process value: the pid of a process spawned from a function that receives s and returns a
+    \* literal of exactly type r (rendered three ways: the spawn's result, `&.` taken in the process's
+    \* entry function, `&.` taken in a helper function the entry function calls)
+    [] v.k = "proc" -> v.ctx = <<>> /\ Closed(G, v.n) /\ LitT(G, G.types[v.n].r)
     [] OTHER -> FALSE
 
 Basic ==
